@@ -215,8 +215,22 @@ def run_case(case: Case, name: str):
         excl = []
         for T in Ts:
             excl.append(("C11-bp-at-Tmax", R.region_c(shape, V, T, K)))
+        via = None
+        if mode == "pair" and "smooth" in shape:
+            # single-point cuts (base load <= curve <= unsmoothed line) + predictions abstracted by fresh variables:
+            # decides the cross-side cases without any exp reasoning; same-side cases fall back to the direct query
+            P = R.effective(shape, V, K)
+            PV = [Z("P0_abs"), Z("P1_abs")]
+            cuts = []
+            for j, T in enumerate(Ts):
+                pr = O["predicted"][j]
+                cuts.append(z3.And(pr >= V["intercept"],
+                                   pr <= V["intercept"] + P["beta_h"] * zmax(P["bp_h"] - T, 0) + P["beta_c"] * zmax(T - P["bp_c"], 0)))
+            hyps = R.domain(shape, V) + ([R.smooth_contract(V["hdd_bp"], V["hdd_k"], V["cdd_bp"], V["cdd_k"], *K)] if K else [])
+            via = dict(cuts=cuts, subst=[(O["predicted"][0], PV[0]), (O["predicted"][1], PV[1])], hyps=hyps)
         for label, claim in _claims(shape, mode, V, O, K).items():
-            case.prove(p, claim, label, replay=("submodel", builder(label)), exclude=excl, refine=refine)
+            case.prove(p, claim, label, replay=("submodel", builder(label)), exclude=excl, refine=refine,
+                       via=via if label == "lipschitz continuity" else None)
         # trace validation against the jitted implementation
         if not contract:
             case.validate(p, p.value, lambda mdl: model_env(mdl, case.inputs),
